@@ -158,8 +158,9 @@ Alts(kind) ==
     [] kind = "RNL" -> <<"", " ", "\n      ", " \n\n   ", "\r\n\t", " # note\n      ", "\n      # full line\n      ">>
     [] kind = "BNL" -> <<"", " ", "\n  ", "\n\n    ", "\r\n", " # c #d\n  ">>
     [] kind = "NL0" -> <<"\n", "\n\n\n", "\r\n", "\n# between\n", " # t\n\n", "   \n  \n">>
-    [] kind = "NL1" -> <<"\n ", "\n\t", "\n", "\n\n   ", "\r\n  ", "\n  # c\n  ", " # t\n  ", " # a #b # c\n  ", "\r  ">>     \* (last: a bare carriage return is a line break for the lexer, no line for positions)
-    [] kind = "NL2" -> <<"\n    ", "\n\t\t", "\n", "\n\n      ", "\r\n    ", "\n    # c\n    ", " # t\n    ", "  #x #y\n    ", "\r    ">>
+    [] kind = "NL1" -> <<"\n ", "\n\t", "\n", "\n\n   ", "\r\n  ", "\n  # c\n  ", " # t\n  ", " # a #b # c\n  ", "\r  ",     \* (a bare carriage return is a line break for the lexer, no line for positions)
+                        " # t\r  ", "\r  # full\r  ">>    \* ... and it ends a comment like any other line break
+    [] kind = "NL2" -> <<"\n    ", "\n\t\t", "\n", "\n\n      ", "\r\n    ", "\n    # c\n    ", " # t\n    ", "  #x #y\n    ", "\r    ", " # t\r    ", "\r    # full\r    ">>
     [] kind = "LEAD" -> <<"", " ", "\n", "\n\n  ", "# x\n">>
     [] kind = "FIN" -> <<"", "\n", " # end", "\n\n\n", "   ">>
     [] OTHER -> <<"">>
